@@ -1,6 +1,7 @@
 import Proofs.Lemmas.PySimOps
 import Proofs.Lemmas.EvalOrder
 import Proofs.Lemmas.Fast
+import Proofs.Lemmas.RunRefine
 /-!
 # C01 — `pyrtl.Simulation` computes the documented cycle semantics
 
@@ -165,6 +166,169 @@ theorem spec_consistent_exists_unique (b : Block) (st : State) (order : List Net
   ⟨evalSeq_consistent _ order e (isTopo_sound order h),
    fun v hv => consistent_unique _ order e v _ (isTopo_sound order h) hv
      (evalSeq_consistent _ order e (isTopo_sound order h))⟩
+
+/-! ### whole runs -/
+open RunRefine
+
+/-- wires that carry a meaningful value in a cycle: sources and destinations of scheduled nets -/
+def Good (b : Block) (order : List Net) (w : Nat) : Prop := Src b w ∨ w ∈ order.map Net.dest
+
+/-- what `sanity_check` guarantees about a block and its iteration order (C10): the order is a
+    schedule, no combinational net drives an Input/Const/Register, constants fit their wires, and
+    register next-inputs and memory write ports only read wires that carry a value -/
+structure WF (b : Block) (order : List Net) : Prop where
+  sched : Sched b order []
+  dests : ∀ n ∈ order, ¬ Src b n.dest
+  consts : ∀ c v, b.kind c = .const v → v < 2 ^ b.width c
+  regArg : ∀ n ∈ b.nets, n.op = .reg → Good b order (n.args.headD 0)
+  wrArgs : ∀ n ∈ writeNets b, ∀ a ∈ n.args, Good b order a
+
+/-- the simulator object and the specification state describe the same architectural state -/
+structure Inv (b : Block) (s : Sim) (st : State) : Prop where
+  regs : ∀ r, s.regvalue r = st.regs r
+  regs_lt : ∀ r, isReg b r = true → st.regs r < 2 ^ b.width r
+  mems : s.mem = st.mems
+  consts : ∀ c v, b.kind c = .const v → s.value c = v
+
+/-- the inputs of a cycle fit their wires (what `step` checks before using them, C15) -/
+def InputsOk (b : Block) (inp : Env) : Prop := ∀ i, isInput b i = true → inp i < 2 ^ b.width i
+
+theorem base_agree (b : Block) (s : Sim) (st : State) (hinv : Inv b s st) (hc : ∀ c v, b.kind c = .const v → v < 2 ^ b.width c)
+    (inp : Env) (hin : InputsOk b inp) :
+    AgreeOn b (fun w => Src b w ∨ w ∈ ([] : List Nat))
+      (fun i => if isReg b i then s.regvalue i else (if isInput b i then inp i else s.value i))
+      (baseEnv b st inp) := by
+  intro w hw
+  rcases hw with hsrc | h
+  · unfold Src at hsrc
+    cases hk : b.kind w with
+    | input =>
+      have hi : isInput b w = true := by simp [isInput, hk]
+      simp only [isReg, isInput, baseEnv, hk]
+      exact ⟨by simp, hin w hi⟩
+    | const v =>
+      simp only [isReg, isInput, baseEnv, hk]
+      exact ⟨by simpa using hinv.consts w v hk, hc w v hk⟩
+    | reg rv =>
+      have hr : isReg b w = true := by simp [isReg, hk]
+      simp only [isReg, isInput, baseEnv, hk]
+      exact ⟨by simpa using hinv.regs w, hinv.regs_lt w hr⟩
+    | output => rw [hk] at hsrc; exact absurd hsrc (by simp)
+    | plain => rw [hk] at hsrc; exact absurd hsrc (by simp)
+  · simp at h
+
+/-- **One cycle.**  From corresponding states and in-range inputs, `Simulation.step` gives every
+    meaningful wire the value the specification gives it (and that value fits the wire), and leaves
+    corresponding states: registers latch the truncated next-input, enabled write ports land, constants
+    keep their value. -/
+theorem pysim_step_eq_spec (b : Block) (order : List Net) (hwf : WF b order) (s : Sim) (st : State)
+    (hinv : Inv b s st) (inp : Env) (hin : InputsOk b inp) :
+    (∀ w, Good b order w →
+        (PySim.step b order (writeNets b) s inp).1 w = (Pyrtl.step b order st inp).1 w ∧
+        (Pyrtl.step b order st inp).1 w < 2 ^ b.width w) ∧
+    Inv b (PySim.step b order (writeNets b) s inp).2 (Pyrtl.step b order st inp).2 := by
+  have hbase := base_agree b s st hinv hwf.consts inp hin
+  have hmain := evalSeq_agree b ⟨s.regvalue, s.mem⟩ st hinv.mems
+    (fun n vals h => pysim_netFun_eq_spec b _ n vals h) order [] _ _ hwf.sched hbase
+  have hgood : ∀ w, Good b order w →
+      (PySim.step b order (writeNets b) s inp).1 w = (Pyrtl.step b order st inp).1 w ∧
+      (Pyrtl.step b order st inp).1 w < 2 ^ b.width w := by
+    intro w hw
+    apply hmain w
+    rcases hw with h | h
+    · exact Or.inl h
+    · exact Or.inr (Or.inr h)
+  refine ⟨hgood, ?_⟩
+  constructor
+  · -- registers
+    intro r
+    simp only [PySim.step, Pyrtl.step, regCapture, nextRegs]
+    cases hrn : regNetOf b r with
+    | none => exact hinv.regs r
+    | some n =>
+      simp only []
+      rw [san_nat]
+      have hmem : n ∈ b.nets := List.mem_of_find?_eq_some hrn
+      have hp := List.find?_some hrn
+      simp only [Bool.and_eq_true, beq_iff_eq] at hp
+      have := (hgood _ (hwf.regArg n hmem hp.1)).1
+      simp only [PySim.step, Pyrtl.step] at this
+      rw [this]
+  · intro r hr
+    simp only [Pyrtl.step, nextRegs]
+    cases hrn : regNetOf b r with
+    | none => exact hinv.regs_lt r hr
+    | some n => exact Nat.mod_lt _ (Nat.two_pow_pos _)
+  · simp only [PySim.step, Pyrtl.step]
+    rw [← hinv.mems]
+    apply writes_congr
+    intro n hn a ha
+    have := (hgood a (hwf.wrArgs n hn a ha)).1
+    simpa only [PySim.step, Pyrtl.step] using this
+  · intro c v hk
+    simp only [PySim.step, execNets]
+    have hsrc : Src b c := by unfold Src; rw [hk]; trivial
+    rw [evalSeq_off _ order _ c (fun n hn hd => hwf.dests n hn (hd ▸ hsrc))]
+    simp only [isReg, isInput, hk]
+    exact hinv.consts c v hk
+
+/-- two traces have the same length and agree, cycle by cycle, on every meaningful wire -/
+def RunsAgree (b : Block) (order : List Net) : List Env → List Env → Prop
+  | [], [] => True
+  | ep :: ps, es :: ss => (∀ w, Good b order w → ep w = es w ∧ es w < 2 ^ b.width w) ∧ RunsAgree b order ps ss
+  | _, _ => False
+
+/-- **Whole runs, any number of cycles.**  Started from corresponding states, `Simulation` stepped
+    through any input sequence traces, in every cycle and for every meaningful wire, exactly the value
+    of the documented cycle semantics: combinational functions of the current inputs and state,
+    registers one cycle late and truncated, reads before writes, writes at the end of the cycle. -/
+theorem pysim_run_eq_spec (b : Block) (order : List Net) (hwf : WF b order) :
+    ∀ (inps : List Env) (s : Sim) (st : State), Inv b s st → (∀ inp ∈ inps, InputsOk b inp) →
+      RunsAgree b order (PySim.run b order (writeNets b) s inps) (Pyrtl.run b order st inps) := by
+  intro inps
+  induction inps with
+  | nil => intro _ _ _ _; trivial
+  | cons inp rest ih =>
+    intro s st hinv hin
+    have hstep := pysim_step_eq_spec b order hwf s st hinv inp (hin inp (by simp))
+    simp only [PySim.run, Pyrtl.run, RunsAgree]
+    exact ⟨hstep.1, ih _ _ hstep.2 (fun i hi => hin i (by simp [hi]))⟩
+
+/-- the simulator's initial object corresponds to the specification's initial state
+    (`register_value_map`, else `reset_value`, else `default_value`; memories likewise) -/
+theorem pysim_init_inv (b : Block) (regMap : Nat → Option Nat) (memMap : Nat → Nat → Option Nat) (dflt : Nat)
+    (hr : ∀ r, isReg b r = true → (initState b regMap memMap dflt).regs r < 2 ^ b.width r) :
+    Inv b (PySim.init b regMap memMap dflt) (initState b regMap memMap dflt) := by
+  constructor
+  · intro r; rfl
+  · exact hr
+  · rfl
+  · intro c v hk
+    simp only [PySim.init, hk]
+
+/-- non-vacuity of `WF`/`Inv`: a 2-bit accumulator `r.next = (i + r)[..]` -/
+def exB : Block :=
+  ⟨#[⟨"i", 2, .input⟩, ⟨"r", 2, .reg none⟩, ⟨"t", 3, .plain⟩],
+   [⟨.add, [0, 1], [2]⟩, ⟨.reg, [2], [1]⟩], []⟩
+
+example : WF exB [⟨.add, [0, 1], [2]⟩] := by
+  refine ⟨⟨?_, trivial⟩, ?_, ?_, ?_, ?_⟩
+  · intro a ha
+    simp only [List.mem_cons, List.not_mem_nil, or_false] at ha
+    rcases ha with rfl | rfl <;> exact Or.inr (by simp [Src, Block.kind, Block.wire, exB])
+  · intro n hn
+    simp only [List.mem_cons, List.not_mem_nil, or_false] at hn
+    subst hn
+    simp [Src, Block.kind, Block.wire, exB, Net.dest]
+  · intro c v hk
+    rcases c with _ | _ | _ | c <;> simp [Block.kind, Block.wire, exB] at hk
+  · intro n hn hop
+    simp only [exB, List.mem_cons, List.not_mem_nil, or_false] at hn
+    rcases hn with rfl | rfl
+    · simp at hop
+    · exact Or.inr (by simp [Net.dest])
+  · intro n hn
+    simp [writeNets, exB] at hn
 
 /-- The hash-map evaluator the compiled driver runs computes exactly `evalSeq` (so correspondence
     runs exercise the function the theorems are about). -/
